@@ -8,7 +8,9 @@
    Analysis-stage labels are compared exactly with the implementation and monitored on it. *)
 From CL Require Import Base.StrLemmas Model.Lexer Model.Parser Proofs.LexerProofs
   Proofs.ParserFM Proofs.ParserTotal Proofs.ParserSpans Proofs.ParserOrder
-  Model.AnalysisLabels Proofs.AnalysisLabelsProofs Proofs.AnalysisLabelsFacts.
+  Gen.LabelSites Model.AnalysisLabels Proofs.AnalysisLabelsProofs Proofs.AnalysisLabelsFacts.
+From Coq Require String.
+Import String.StringSyntax.
 
 Theorem C04_tokens_tile :
   forall (U : N -> ucls) s off ts, lex_at U s off = Some ts -> concat (map tstr ts) = s.
@@ -143,13 +145,185 @@ Proof.
 Qed.
 
 (* ---- the labels of analysis-stage diagnostics ----
-   Model/AnalysisLabels.v enumerates every expression of src/analysis/event_consumer.rs (as of
-   17e6a01) that becomes a label of a diagnostic of stage Analysis (53 sites, [label_sites]: source
-   line and form) and classifies it: the span of a part of a parser event ([FPart]); the position at
-   the end of such a span ([FPosEnd]); the start of a metadata key joined with the end of its value
-   ([FJoinKV]); the offset of the front matter text plus a byte index into it, the index coming from
-   yaml_find_key_position ([FYamlKey], modelled function by function) or from serde_yaml's error
-   location ([FYamlErr], an oracle).  [produces evs f sp]: a label of form f can be sp on the stream evs. *)
+   Four layers, from the source to the placement theorem:
+   1. Gen/LabelSites.v is REGENERATED from /repo/src/analysis/*.rs on every run (gen/gen_labels.py, token
+      level): every expression of the non-test code that becomes the span of a label - the span argument
+      of every label!(..), every other argument of .label(..) / .add_label(..) / error!(_, ..) /
+      warning!(_, ..), every Span::new / Span::pos / Span::from construction, every argument at a Span
+      parameter of a function of these files - as (enclosing fn, expression text), white space and string
+      literals normalised, a lone identifier followed by its nearest binder, NO line numbers.
+      [C04_label_inventory] pins the list: a label that is added, removed or edited breaks it; moving
+      code does not.
+   2. Model/AnalysisLabels.v [label_table] has one row per inventory entry ([C04_label_inventory_classified])
+      and gives the SITES (id, form) the entry's span reaches; the rows reach exactly the 53 sites of
+      [label_sites] ([C04_label_table_sites]).
+   3. A form is: the span of a part of a parser event ([FPart]); the position at the end of such a span
+      ([FPosEnd]); the start of a metadata key joined with the end of its value ([FJoinKV]); the offset of
+      the front matter text plus a byte index into it, from yaml_find_key_position ([FYamlKey], modelled
+      function by function); the label of a front matter serde_yaml rejects ([FYamlErr]: the offset plus
+      the index of the error's location - an oracle - or, without a location, the span of the whole
+      text).  [produces evs f sp]: a label of form f can be sp on the stream evs.
+   4. [C04_analysis_labels_ok] / [C04_inventory_labels_ok]: every span a site produces from the events of
+      any input is in bounds, ordered and on character boundaries. *)
+
+(* the inventory of the source (as of 45a4888) *)
+Local Open Scope string_scope.
+Theorem C04_label_inventory :
+  LabelSites.sites = [
+    ("parse_events",
+     "span <- for span in self.old_style_metadata_used");
+    ("process_frontmatter",
+     "Span::pos(yaml_text.span().start() + loc.index())");
+    ("process_frontmatter",
+     "err_span <- let err_span = err.location().map(|loc|Span::pos(yaml_text.span().start() + loc.index())).unwrap_or_else(||yaml_text.span())");
+    ("process_frontmatter",
+     "Span::pos(yaml_text.span().start() + pos)");
+    ("process_frontmatter",
+     "Span::pos(yaml_text.span().start() + pos)");
+    ("process_frontmatter",
+     "Span::pos(yaml_text.span().start() + p)");
+    ("process_frontmatter",
+     "Span::pos(yaml_text.span().start() + p)");
+    ("process_frontmatter",
+     "Span::pos(yaml_text.span().start() + p)");
+    ("metadata",
+     "value.span()");
+    ("metadata",
+     "key.span()");
+    ("metadata",
+     "key.span()");
+    ("metadata",
+     "Span::new(key.span().start(), value.span().end())");
+    ("metadata",
+     "key.span()");
+    ("metadata",
+     "value.span()");
+    ("metadata",
+     "value.span()");
+    ("metadata",
+     "key.span()");
+    ("time_override_check",
+     "Span::new(e.0.span().start(), e.1.span().end())");
+    ("time_override_check",
+     "overriden.next().unwrap()");
+    ("time_override_check",
+     "e <- for e in overriden");
+    ("time_override_check",
+     "overrides <- let overrides = locs(&[new])[0]");
+    ("in_step",
+     "text.span()");
+    ("in_text",
+     "span <- let (c, span) = match ev{Event::Ingredient(i) => (<str>, i.span()), Event::Cookware(c) => (<str>, c.span()), Event::Timer(t) => (<str>, t.span()), _ => unreachable!(), }");
+    ("ingredient",
+     "ingredient.modifiers.span()");
+    ("ingredient",
+     "resolve_reference(location: location <- let (ingredient, location) = ingredient.take_pair())");
+    ("ingredient",
+     "resolve_reference(modifiers_location: located_ingredient.modifiers.span())");
+    ("ingredient",
+     "new <- let new = new_q_loc.unit.as_ref().map(|l|l.span()).unwrap_or(new_q_loc.span())");
+    ("ingredient",
+     "old <- let old = old_q_loc.unit.as_ref().map(|l|l.span()).unwrap_or(old_q_loc.span())");
+    ("ingredient",
+     "new <- let new = new_q_loc.unit.as_ref().map(|l|l.span()).unwrap_or(new_q_loc.span())");
+    ("ingredient",
+     "old <- let old = old_q_loc.unit.as_ref().map(|l|l.span()).unwrap_or(old_q_loc.span())");
+    ("ingredient",
+     "new <- let new = new_q_loc.unit.as_ref().map(|l|l.span()).unwrap_or(new_q_loc.span())");
+    ("ingredient",
+     "old <- let old = old_q_loc.unit.as_ref().map(|l|l.span()).unwrap_or(old_q_loc.span())");
+    ("ingredient",
+     "new <- let new = new_q_loc.unit.as_ref().map(|l|l.span()).unwrap_or(new_q_loc.span())");
+    ("ingredient",
+     "old <- let old = old_q_loc.unit.as_ref().map(|l|l.span()).unwrap_or(old_q_loc.span())");
+    ("ingredient",
+     "warning!(.., main_label <- let (main_label, support_label) = match &e{crate::quantity::IncompatibleUnits::MissingUnit{lhs, ..} => {let m=<str>;let f=<str>;if *lhs{(label!(new, m), label!(old, f))} else {(label!(new, f), label!(old, m))}}crate::quantity::IncompatibleUnits::DifferentPhysicalQuantities{a:a_q, b:b_q, } => {(label!(new, b_q.to_string()), label!(old, a_q.to_string()))}crate::quantity::IncompatibleUnits::UnknownDifferentUnits{..} => {(label!(new), label!(old))}})");
+    ("ingredient",
+     ".label(support_label <- let (main_label, support_label) = match &e{crate::quantity::IncompatibleUnits::MissingUnit{lhs, ..} => {let m=<str>;let f=<str>;if *lhs{(label!(new, m), label!(old, f))} else {(label!(new, f), label!(old, m))}}crate::quantity::IncompatibleUnits::DifferentPhysicalQuantities{a:a_q, b:b_q, } => {(label!(new, b_q.to_string()), label!(old, a_q.to_string()))}crate::quantity::IncompatibleUnits::UnknownDifferentUnits{..} => {(label!(new), label!(old))}})");
+    ("ingredient",
+     "note_reference_error(span: note.span())");
+    ("ingredient",
+     "note_reference_error(def_span: definition_location.span())");
+    ("ingredient",
+     "note_reference_error(def_note_span: definition_location.note.as_ref().map(|n|n.span()))");
+    ("ingredient",
+     "conflicting_reference_quantity_error(ref_quantity_span: ingredient.quantity.unwrap().span())");
+    ("ingredient",
+     "conflicting_reference_quantity_error(def_span: definition_location.span())");
+    ("ingredient",
+     "text_val_in_ref_warn(text_quantity_span: text_quantity_span <- let (text_quantity_span, number_quantity_span) = if ref_is_text{(ref_q_loc, def_q_loc)} else {(def_q_loc, ref_q_loc)})");
+    ("ingredient",
+     "text_val_in_ref_warn(number_quantity_span: number_quantity_span <- let (text_quantity_span, number_quantity_span) = if ref_is_text{(ref_q_loc, def_q_loc)} else {(def_q_loc, ref_q_loc)})");
+    ("ingredient",
+     "location <- let (ingredient, location) = ingredient.take_pair()");
+    ("resolve_intermediate_ref",
+     "inter_data.span()");
+    ("resolve_intermediate_ref",
+     "inter_data.span()");
+    ("resolve_intermediate_ref",
+     "inter_data.span()");
+    ("cookware",
+     "resolve_reference(location: location <- let (cookware, location) = cookware.take_pair())");
+    ("cookware",
+     "resolve_reference(modifiers_location: located_cookware.modifiers.span())");
+    ("cookware",
+     "note_reference_error(span: note.span())");
+    ("cookware",
+     "note_reference_error(def_span: definition_location.span())");
+    ("cookware",
+     "note_reference_error(def_note_span: definition_location.note.as_ref().map(|n|n.span()))");
+    ("cookware",
+     "conflicting_reference_quantity_error(ref_quantity_span: located_cookware.quantity.as_ref().unwrap().span())");
+    ("cookware",
+     "conflicting_reference_quantity_error(def_span: definition_location.span())");
+    ("cookware",
+     "text_val_in_ref_warn(text_quantity_span: text_quantity_span <- let (text_quantity_span, number_quantity_span) = if ref_is_text{(ref_q_loc, def_q_loc)} else {(def_q_loc, ref_q_loc)})");
+    ("cookware",
+     "text_val_in_ref_warn(number_quantity_span: number_quantity_span <- let (text_quantity_span, number_quantity_span) = if ref_is_text{(ref_q_loc, def_q_loc)} else {(def_q_loc, ref_q_loc)})");
+    ("timer",
+     "located_quantity.value.span()");
+    ("timer",
+     "unit_span <- let unit_span = located_quantity.unit.as_ref().unwrap().span()");
+    ("timer",
+     "unit_span <- let unit_span = located_quantity.unit.as_ref().unwrap().span()");
+    ("value",
+     "value.span()");
+    ("resolve_reference",
+     "modifiers_location <- fn parameter");
+    ("resolve_reference",
+     "modifiers_location <- fn parameter");
+    ("resolve_reference",
+     "location <- fn parameter");
+    ("note_reference_error",
+     "span <- fn parameter");
+    ("note_reference_error",
+     "sp <- if let Some(sp) = def_note_span");
+    ("note_reference_error",
+     "Span::pos(def_span.end())");
+    ("conflicting_reference_quantity_error",
+     "ref_quantity_span <- fn parameter");
+    ("conflicting_reference_quantity_error",
+     "def_span <- fn parameter");
+    ("text_val_in_ref_warn",
+     "text_quantity_span <- fn parameter");
+    ("text_val_in_ref_warn",
+     "number_quantity_span <- fn parameter")
+  ].
+Proof. reflexivity. Qed.
+Local Close Scope string_scope.
+Print Assumptions C04_label_inventory.
+
+(* one row of the classification table per inventory entry, in the same order *)
+Theorem C04_label_inventory_classified : map fst label_table = LabelSites.sites.
+Proof. reflexivity. Qed.
+Print Assumptions C04_label_inventory_classified.
+
+(* the rows name sites of the enumeration, and every site of the enumeration is reached by a row *)
+Theorem C04_label_table_sites :
+  (forall r c, In r label_table -> In c (snd r) -> In c label_sites) /\
+  (forall c, In c label_sites -> exists r, In r label_table /\ In c (snd r)).
+Proof. exact (conj label_table_in_sites label_sites_in_table). Qed.
+Print Assumptions C04_label_table_sites.
 
 (* yaml_find_key_position: a returned position is the start of a line of the text (the search
    runs on the line after trim_start, so the index of the key inside the line is always 0): a
@@ -193,7 +367,8 @@ Print Assumptions C04_event_facts.
 (* assembled over the enumeration, on the events of the pull parser with the current code: every
    label that any of the 53 sites can produce from the events of any input is in bounds, ordered
    and on character boundaries.  The one hypothesis left is the serde_yaml oracle [yaml_index_ok]
-   (site 248 only). *)
+   (site 248 only, and only when the error has a location; without one the label is the span of the
+   front matter text).  The number of a site is its source line as of 17e6a01, kept as an identifier. *)
 Theorem C04_analysis_labels_ok :
   forall (U : N -> ucls) (cfg : pcfg) (s : str) (evs : list pevent) yaml_err_index,
     p_strict_escape cfg = false -> p_note_label_old cfg = false ->
@@ -205,6 +380,38 @@ Proof.
   exact (analysis_labels_ok U cfg s evs y H1 H2 E (events_ev_fact U cfg s evs H1 E) Hy).
 Qed.
 Print Assumptions C04_analysis_labels_ok.
+
+(* the same, read from the inventory: for every entry (fn, expr) of the regenerated inventory, the row
+   of the table with that key, every site (id, f) of the row, every span the site can produce *)
+Theorem C04_inventory_labels_ok :
+  forall (U : N -> ucls) (cfg : pcfg) (s : str) (evs : list pevent) yaml_err_index,
+    p_strict_escape cfg = false -> p_note_label_old cfg = false ->
+    events U cfg s = Done evs ->
+    yaml_index_ok yaml_err_index ->
+    forall fn expr, In (fn, expr) LabelSites.sites ->
+      (exists cls, In (fn, expr, cls) label_table) /\
+      forall cls id f sp, In (fn, expr, cls) label_table -> In (id, f) cls ->
+        produces yaml_err_index evs f sp -> span_ok s sp.
+Proof.
+  intros U cfg s evs y H1 H2 E Hy fn expr Hin. split.
+  - rewrite <- C04_label_inventory_classified in Hin. apply in_map_iff in Hin as ([k cls] & Ek & Hr).
+    cbn [fst] in Ek. subst k. exists cls. exact Hr.
+  - intros cls id f sp Hr Hc.
+    exact (inventory_labels_ok U cfg s evs y H1 H2 E (events_ev_fact U cfg s evs H1 E) Hy fn expr cls id f sp Hr Hc).
+Qed.
+Print Assumptions C04_inventory_labels_ok.
+
+(* the front matter error label without a location (45a4888) is covered: on "---\n[\n---\n" with an oracle
+   that gives no location, site 248 produces the span of the front matter text *)
+Example C04_yaml_err_unlocated_inhabited :
+  exists evs t, events U_plain cfg_now_all [45;45;45;10;91;10;45;45;45;10] = Done evs /\
+    In (EvYaml t) evs /\ In (248, FYamlErr) label_sites /\
+    produces (fun _ => None) evs FYamlErr (text_span t) /\ text_span t = (4, 6).
+Proof.
+  eexists. eexists. split; [vm_compute; reflexivity|]. split; [left; reflexivity|].
+  split; [unfold label_sites; repeat (first [left; reflexivity | right])|].
+  split; [|reflexivity]. cbn [produces]. eexists. split; [left; reflexivity|]. reflexivity.
+Qed.
 
 (* not vacuous: the witness input of the repaired defect has a note label under the current form,
    and it is the note text (23, 25) *)
